@@ -770,7 +770,7 @@ def c06_archive(pool, rnd):
         if nm is None:
             return
         danger = rnd.random() < 0.4
-        t = rnd.choice(tr.TARGETS_DANGER if danger else [b"a", b"f.txt", b"e", b"nowhere", b"b/c", b"./x"])
+        t = rnd.choice(tr.TARGETS_DANGER if danger else [b"a", b"f.txt", b"e", b"nowhere", b"b/c", b"./x", b"x|y", b"b/c|d", b"p|q|r", b"a|"])
         ms.append(tr.link_member(rnd, d + nm, t, rnd.choice([0, 1, 2, 3])))
         spec.append(("link", d + nm, t, danger))
 
